@@ -127,13 +127,15 @@ Stray(w, call) ==
 HookCall(w, call) ==
   LET h == HookName(call.channel, call.from)
       lim == "limited" \in DOMAIN call /\ call.limited
-      inner == [m |-> call.inner, s |-> h, funds |-> <<<<HookDenom, call.amt>>>>, b |-> call.b]
-      w0 == [w EXCEPT !.bank = Credit(@, h, HookDenom, call.amt)]
+      \* the voucher the IBC module credits: the staked asset unless the operator sent something else
+      den == IF "den" \in DOMAIN call THEN call.den ELSE HookDenom
+      inner == [m |-> call.inner, s |-> h, funds |-> <<<<den, call.amt>>>>, b |-> call.b]
+      w0 == [w EXCEPT !.bank = Credit(@, h, den, call.amt)]
       r == ExecContract(w0, inner)
       exact == call.inner # "receive_unstaked_tokens" \/ call.amt = w.c.batches[call.b].expected
   IN IF lim /\ Get(w.nat.bal, call.from) < call.amt THEN Refused(w, {"native_sender_lacks_funds"})
      ELSE IF ~r.ok THEN Refused(w, r.why)
-     ELSE Done([r.w EXCEPT !.nat.bal = IF lim THEN Add(@, call.from, 0 - call.amt) ELSE @,
+     ELSE Done([r.w EXCEPT !.nat.bal = IF lim /\ den = HookDenom THEN Add(@, call.from, 0 - call.amt) ELSE @,
                            !.led.honest = @ /\ exact], r.msgs)
 
 \* ------------------------------------------------------------------ the treasury contract
